@@ -763,14 +763,34 @@ func runDurTorn(c *Ctx, r *RuleRun) {
 				if !bad {
 					// a record cut inside its length prefix or body is reported as io.ErrUnexpectedEOF: it must be among the
 					// errors the classification knows
-					knowsUEOF := p.FuncMayDo(f, func(i ssa.Instruction) bool {
+					isUEOF := func(i ssa.Instruction) bool {
 						for _, v := range operandsOf(i) {
 							if g := globalLoaded(v); g != nil && g.Pkg() != nil && g.Pkg().Path() == "io" && g.Name() == "ErrUnexpectedEOF" {
 								return true
 							}
 						}
 						return false
-					})
+					}
+					// reachable from this read's error edge (within the reader): a comparison with io.ErrUnexpectedEOF, directly
+					// or inside a called classifier
+					knowsUEOF := false
+					for _, st := range starts {
+						q := PathQuery{P: p, Fn: f, Starts: []ssa.Instruction{st}, Target: func(i ssa.Instruction) bool {
+							if isUEOF(i) {
+								return true
+							}
+							if ci, ok := i.(*ssa.Call); ok && p.SiteMayReach(ci, isUEOF) {
+								return true
+							}
+							return false
+						}, Avoid: func(i ssa.Instruction) bool { return i == ssa.Instruction(call) }}
+						if isUEOF(st) || q.FindPath() != nil {
+							knowsUEOF = true
+						}
+						if ci, ok := st.(*ssa.Call); ok && p.SiteMayReach(ci, isUEOF) {
+							knowsUEOF = true
+						}
+					}
 					r.Check(knowsUEOF, fn, "record-read", pos, "the read error is compared with io.EOF/io.ErrUnexpectedEOF before any failure return",
 						"the classification of a short read never mentions io.ErrUnexpectedEOF, which is what a record torn inside its length prefix or body produces: recovery fails on a torn tail")
 				}
